@@ -57,6 +57,31 @@ CLAIMED = {
              "scripted interface list, deterministic RNG), UDP host candidates only.",
         technique="Lean 4 proof of role-resolution invariants (message-history system) + trace monitor + simulation of real agents",
         design="5/C01"),
+    "C11": dict(
+        text="PARTIAL. Lean 4 theorems: (1) the transition whitelist — regenerated on every run by compiling the g_assert expression "
+             "of agent_signal_component_state_change and evaluating it on all 36 pairs — equals the documented machine (states.gv, "
+             "re-parsed, plus the two families the source comments document), by `decide`; (2) for EVERY sequence of requested "
+             "states the choke point announces no state twice in a row, only whitelisted steps, and the getter equals the last "
+             "announcement (or the run stops on the assertion). Call-site claims (selected pair announced before CONNECTED/READY, "
+             "gathering-done once per run, silence after remove_stream) are not proved: they are evaluated on simulated API "
+             "histories of two real agents (restart, stream restart, remove/re-add, consent loss, blackouts) and every announced "
+             "sequence is replayed through the Lean choke-point model.",
+        note="Trusted: Lean kernel, extract.py table regeneration, hand-written choke-point model, sim_drv harness.",
+        technique="Lean 4 proof over source-regenerated transition table + trace replay through the model + simulation",
+        design="5/C11"),
+    "C13": dict(
+        text="PARTIAL. Lean 4 theorems on the consent timing kernels: constants pinned to 30 s / 25 s / 4-6 s (regenerated), a tick "
+             "never fails before last-answer + timeout, any tick after it fails and closes the send gate, along every timer "
+             "schedule with lateness <= delta failure is declared in (L+T, L+T+delta] when answers stop, answers within the timeout "
+             "keep the pair alive for ever, a 403 closes the gate at once, consent checks are spaced 4-6 s for every RNG output. "
+             "Tied by virtual-time simulation of real agents: blackouts of every direction/duration, revocation before selection / "
+             "during signalling / at READY, lossy consent checks, idle sessions; observed failure instants must lie in the proved "
+             "window, the send API must return PERMISSION_DENIED exactly then, revocation must produce 403s; the keepalive gap "
+             "(25 s / ~6 s) is observed, not proved.",
+        note="Trusted: Lean kernel, hand-written Consent kernels, sim_drv virtual clock/network; timers assumed to fire at or "
+             "after their due time with small lateness.",
+        technique="Lean 4 proof of timing kernels + virtual-time simulation oracle against the proved window",
+        design="5/C13"),
 }
 
 NA_REASON = "not yet decided by the framework at this commit (model/theorems under construction); not claimed"
